@@ -23,7 +23,7 @@ import numpy as np
 import z3
 
 from vx import symx
-from vx.symx import Engine, SymInt, T, mk
+from vx.symx import Engine, SymInt, T, mk, is_stub_gap
 from vx.report import Report, run_parallel, tier, seed
 
 import xobjects.context_cpu as xcpu
@@ -464,6 +464,8 @@ def harness(cfg):
                 e.prove(z3.Implies(z3.And(0 <= p, p < slen.e), snative.at(p) == spre(p)), f"{prim}: the source buffer is not modified", det)
                 e.prove(snative.length == slen.e, f"{prim}: the source buffer keeps its length", det)
         except Exception as ex:  # noqa
+            if is_stub_gap(ex):
+                raise symx.Inconclusive()
             e.fail(f"{prim} raised {type(ex).__name__} on ranges inside both containers", det)
         e.reach()
 
